@@ -42,6 +42,14 @@ Example example_tree_wf : wf_ss example_tree.
 Proof. cbn. intuition. Qed.
 Example example_tree_agrees : read_native (emit example_tree) = Some (convert example_tree).
 Proof. vm_compute. reflexivity. Qed.
+(* ... and `def f(a, b=1, /, c=g(2), *, k, j=3): return a` (all parameter kinds except *args / **kwargs) *)
+Definition example_def : stmts :=
+  (SCons (SDef (P 1 0 2 12) "f" (PCons (P 1 6 1 7) (P 1 6 1 7) "a" KPosOnly None (PCons (P 1 9 1 10) (P 1 9 1 10) "b" KPosOnly (Some (EInt (P 1 11 1 12) 1))
+    (PCons (P 1 17 1 18) (P 1 17 1 18) "c" KPos (Some (ECall (P 1 19 1 23) (EName (P 1 19 1 20) "g") (ACons APos (EInt (P 1 21 1 22) 2) ANil)))
+    (PCons (P 1 28 1 29) (P 1 28 1 29) "k" KKwOnly None (PCons (P 1 31 1 32) (P 1 31 1 32) "j" KKwOnly (Some (EInt (P 1 33 1 34) 3)) PNil)))))
+    (SReturn (P 2 4 2 12) (Some (EName (P 2 11 2 12) "a"))) SNil) SNil).
+Example example_def_wf : wf_ss example_def.
+Proof. cbn. intuition. Qed.
 Example clamp_example : report_clamp 3 (Some 7) None None = (3, 7, 3, 8) /\ report_clamp 3 None (Some 1) (Some 0) = (3, -1, 3, 0).
 Proof. split; reflexivity. Qed.
 
@@ -58,6 +66,26 @@ Definition witness_elif : stmts :=
 Definition witness_bool3 : stmts :=
   SCons (SExpr (P 1 0 1 13) (EBoolOp (P 1 0 1 13) And (EName (P 1 0 1 1) "a") (EName (P 1 6 1 7) "b")
     (ECons (EName (P 1 12 1 13) "c") ENil))) SNil.
+
+(* 4. `def f( *a ): pass`      the Argument/Var of the star parameter start at the name (fastparse: ast.arg) / at the star (nativeparse)
+   5. `def f( *, __x ): pass`   fastparse makes the keyword-only parameter `__x` positional-only (argument_elide_name on
+                              every parameter); the serializer applies the rule to ordinary positional parameters only.
+                              Observable: `f(__x=1)` is "Unexpected keyword argument" under the default parser only. *)
+Definition witness_star_param : stmts :=
+  SCons (SDef (P 1 0 2 8) "f" (PCons (P 1 7 1 8) (P 1 6 1 8) "a" KStar None PNil) (SPass (P 2 4 2 8)) SNil) SNil.
+Definition witness_kwonly_dunder : stmts :=
+  SCons (SDef (P 1 0 2 8) "f" (PCons (P 1 9 1 12) (P 1 9 1 12) "__x" KKwOnly None PNil) (SPass (P 2 4 2 8)) SNil) SNil.
+
+Theorem parsers_agree_all_trees_refuted_star_param : exists t, read_native (emit t) <> Some (convert t).
+Proof. exists witness_star_param. vm_compute. discriminate. Qed.
+Print Assumptions parsers_agree_all_trees_refuted_star_param.
+Theorem parsers_disagree_kwonly_dunder_pos_only :
+  read_native (emit witness_kwonly_dunder) =
+    Some [MFuncDef (P 1 0 2 8) "f" [MArg (P 1 9 1 12) (P 1 9 1 12) "__x" ARG_NAMED None false] (MBlock (P 2 4 2 8) false [MPass (P 2 4 2 8)])]
+  /\ convert witness_kwonly_dunder =
+    [MFuncDef (P 1 0 2 8) "f" [MArg (P 1 9 1 12) (P 1 9 1 12) "__x" ARG_NAMED None true] (MBlock (P 2 4 2 8) false [MPass (P 2 4 2 8)])].
+Proof. split; vm_compute; reflexivity. Qed.
+Print Assumptions parsers_disagree_kwonly_dunder_pos_only.
 
 Theorem parsers_agree_all_trees_refuted_paren : exists t, read_native (emit t) <> Some (convert t).
 Proof. exists witness_paren. vm_compute. discriminate. Qed.
